@@ -82,16 +82,21 @@ def Ext.extent (t : IdxT) (e : Ext) (i : Nat) : Except Err Int :=
 /-- `extents()` : value-initialised `_extents` -/
 def Ext.default (p : Pat) : Ext := { pat := p, dyn := List.replicate (rankDynamic p) 0 }
 
-/-- the loop of the `N == rank()` branch: keep the values at the dynamic positions -/
-def pickDynLoop (t : IdxT) (p : Pat) (vals : List Int) : List Nat → List Int → Except Err (List Int)
+/-- the loop shared by the `N == rank()` constructor and the converting constructor:
+    `for (i = 0; i < rank(); ++i) if (static_extent(i) == dynamic_extent) _extents[_dynamic_index(i)] = cast(get(i))` -/
+def fillDynLoop (t : IdxT) (p : Pat) (get : Nat → Except Err Int) : List Nat → List Int → Except Err (List Int)
   | [], d => .ok d
   | i :: is, d => do
-    let se ← rd p i
+    let se ← rd p i                           -- `static_extent(i)` of the object under construction
     if isDyn se then
-      let v ← rd vals i                       -- `ext[i]`
+      let v ← get i
       let d' ← wr d (dynamicIndex p i) (t.wrap v)
-      pickDynLoop t p vals is d'
-    else pickDynLoop t p vals is d
+      fillDynLoop t p get is d'
+    else fillDynLoop t p get is d
+
+/-- the loop of the `N == rank()` branch: keep the values `ext[i]` at the dynamic positions -/
+def pickDynLoop (t : IdxT) (p : Pat) (vals : List Int) : List Nat → List Int → Except Err (List Int) :=
+  fillDynLoop t p (fun i => rd vals i)
 
 /-- `extents(span<Other,N>)`, reached also from `extents(array)` and `extents(Integrals...)`.
     `N` must be `rank_dynamic()` or `rank()` (a `requires` clause: other lengths do not compile). -/
@@ -104,16 +109,9 @@ def Ext.ofVals (t : IdxT) (p : Pat) (vals : List Int) : Except Err Ext :=
     let d ← pickDynLoop t p vals (List.range p.length) (List.replicate (rankDynamic p) 0)
     pure { pat := p, dyn := d }
 
-/-- loop of the converting constructor -/
-def convLoop (t ts : IdxT) (p : Pat) (src : Ext) : List Nat → List Int → Except Err (List Int)
-  | [], d => .ok d
-  | i :: is, d => do
-    let se ← rd p i                           -- `static_extent(i)` of the target
-    if isDyn se then
-      let v ← src.extent ts i
-      let d' ← wr d (dynamicIndex p i) (t.wrap v)
-      convLoop t ts p src is d'
-    else convLoop t ts p src is d
+/-- loop of the converting constructor: the value is `e.extent(i)` of the source -/
+def convLoop (t ts : IdxT) (p : Pat) (src : Ext) : List Nat → List Int → Except Err (List Int) :=
+  fillDynLoop t p (fun i => src.extent ts i)
 
 /-- `extents(extents<OtherIndexType, OtherExtents...> const&)`; the `requires` clause demands equal rank
     and pairwise compatible static extents -/
